@@ -46,6 +46,7 @@ type Req struct {
 	PreDoc    string     `json:"predoc,omitempty"`    // mkdir/verify in a worker-owned jail: directories made (simple mode) before the call
 	NodeIdx   int        `json:"nodeidx,omitempty"`   // From-Root: operate on the k-th node in pre-order instead of the root (-1: nil)
 	PreOps    []string   `json:"preops,omitempty"`    // From-Root: operations performed on the same tree first ("output", "walk", "walkiter", "json", "massive-output", "mkdir-elsewhere")
+	Par       []Req      `json:"par,omitempty"`       // run these requests at the same time (one goroutine each) in this worker; the reply carries theirs in Sub
 	Stall     *Stall     `json:"stall,omitempty"`     // back-pressure: the sink is held until the splitter is handing over its last block, then something happens
 	Record    bool       `json:"record,omitempty"`    // record the hook events of this call
 	Delays    int64      `json:"delays,omitempty"`    // seed for random delays at hook points (0 = none)
@@ -109,6 +110,7 @@ type Rep struct {
 	Unforced    bool     `json:"unforced,omitempty"` // the plan could not be forced (a gate timed out)
 	PlanDone    int      `json:"plandone,omitempty"` // plan steps that happened in order
 	ElapsedUs   int64    `json:"elapsed_us,omitempty"`
+	Sub         []Rep    `json:"sub,omitempty"` // replies to Par
 }
 
 // Serve runs the worker loop on stdin/stdout.
